@@ -21,19 +21,15 @@ import (
 	"fmt"
 	"math/big"
 	mrand "math/rand"
-	"strings"
 
 	"elaverif/harness/hx"
 
-	"github.com/elastos/Elastos.ELA/blockchain"
 	"github.com/elastos/Elastos.ELA/common"
 	"github.com/elastos/Elastos.ELA/core/contract"
-	"github.com/elastos/Elastos.ELA/core/contract/program"
 	"github.com/elastos/Elastos.ELA/core/transaction"
 	ctypes "github.com/elastos/Elastos.ELA/core/types/common"
 	"github.com/elastos/Elastos.ELA/core/types/functions"
 	"github.com/elastos/Elastos.ELA/core/types/interfaces"
-	"github.com/elastos/Elastos.ELA/core/types/outputpayload"
 	"github.com/elastos/Elastos.ELA/crypto"
 )
 
@@ -146,27 +142,27 @@ func oracle(t []string, out string) *hx.Violation {
 	}
 	if t[0] == "txsig" {
 		o := parseTxsig(t)
-		if reviewedExempt(o.variant, o.ttype, o.pver) {
+		if reviewedExempt(o.Variant, o.Ttype, o.Pver) {
 			return nil
 		}
 		// every address the transaction spends from needs a program that justifies it
-		addrs := append([]hashIn{}, o.refs...)
-		for _, a := range o.attrs {
-			if a.usage == byte(ctypes.Script) {
-				if len(a.data) != 21 {
+		addrs := append([]hashIn{}, o.Refs...)
+		for _, a := range o.Attrs {
+			if a.Usage == byte(ctypes.Script) {
+				if len(a.Data) != 21 {
 					return &hx.Violation{Kind: "accept-unsigned-tx", Detail: "accepted with a malformed Script attribute"}
 				}
-				addrs = append(addrs, hashIn{Pfx: a.data[0], Hash: a.data[1:]})
+				addrs = append(addrs, hashIn{Pfx: a.Data[0], Hash: a.Data[1:]})
 			}
 		}
 		for _, h := range addrs {
 			var first *hx.Violation
 			okFound := false
-			for i := range o.run.Ps {
-				if h.Pfx != byte(contract.PrefixCrossChain) && !bytes.Equal(h.Hash, o.run.CH[i]) {
+			for i := range o.Run.Ps {
+				if h.Pfx != byte(contract.PrefixCrossChain) && !bytes.Equal(h.Hash, o.Run.CH[i]) {
 					continue
 				}
-				v := judgePair(o.run, h, i)
+				v := judgePair(o.Run, h, i)
 				if v == nil {
 					okFound = true
 					break
@@ -181,7 +177,7 @@ func oracle(t []string, out string) *hx.Violation {
 				}
 				return &hx.Violation{Kind: "accept-unsigned-tx",
 					Detail: fmt.Sprintf("tx type 0x%02x payload version %d accepted although spent address %02x%s has no program with verifying signatures (not in the reviewed exemption table)",
-						o.ttype, o.pver, h.Pfx, hx.Hex(h.Hash))}
+						o.Ttype, o.Pver, h.Pfx, hx.Hex(h.Hash))}
 			}
 		}
 		return nil
@@ -530,138 +526,6 @@ func genMulti(g *hx.Gen, w *world) {
 	}
 }
 
-// ---------------------------------------------------------------- txsig: checkTransactionSignature
-//
-//	txsig <tx|bc> <type> <pver> <lock> <nRefs> {<pfx> <hash20>}* <nAttr> {<usage> <data>}* <data> 0 <np> {<code> <param> <codehash>}* <nV> … <nS> …
-//
-// The transaction is rebuilt from the op (default payload of the type/version, one input per
-// referenced output, the attributes, lock time, programs) and handed to the real
-// checkTransactionSignature; <data> must be its unsigned serialization.
-
-type attrIn struct {
-	usage byte
-	data  []byte
-}
-type txOp struct {
-	variant     string
-	ttype, pver byte
-	lock        uint32
-	refs        []hashIn
-	attrs       []attrIn
-	run         *runOp
-}
-
-func parseTxsig(t []string) *txOp {
-	o := &txOp{variant: t[1]}
-	o.ttype = hx.UnHex(t[2])[0]
-	o.pver = byte(atoi(t[3]))
-	o.lock = uint32(atoi(t[4]))
-	i := 5
-	n := atoi(t[i])
-	i++
-	for k := 0; k < n; k++ {
-		o.refs = append(o.refs, hashIn{Pfx: hx.UnHex(t[i])[0], Hash: hx.UnHex(t[i+1])})
-		i += 2
-	}
-	n = atoi(t[i])
-	i++
-	for k := 0; k < n; k++ {
-		o.attrs = append(o.attrs, attrIn{usage: hx.UnHex(t[i])[0], data: hx.UnHex(t[i+1])})
-		i += 2
-	}
-	o.run = parseRun(append([]string{"run"}, t[i:]...))
-	return o
-}
-
-func buildTx(o *txOp, ps []progIn) (interfaces.Transaction, map[*ctypes.Input]ctypes.Output, bool) {
-	pl, err := interfaces.GetPayload(ctypes.TxType(o.ttype), o.pver)
-	if err != nil || pl == nil {
-		return nil, nil, false
-	}
-	var ins []*ctypes.Input
-	refs := map[*ctypes.Input]ctypes.Output{}
-	for k, h := range o.refs {
-		in := &ctypes.Input{Previous: ctypes.OutPoint{Index: uint16(k)}, Sequence: uint32(k)}
-		in.Previous.TxID[0] = byte(k + 1)
-		ins = append(ins, in)
-		var ph common.Uint168
-		ph[0] = h.Pfx
-		copy(ph[1:], h.Hash)
-		refs[in] = ctypes.Output{ProgramHash: ph, Payload: &outputpayload.DefaultOutput{}}
-	}
-	attrs := []*ctypes.Attribute{}
-	for _, a := range o.attrs {
-		attrs = append(attrs, &ctypes.Attribute{Usage: ctypes.AttributeUsage(a.usage), Data: exact(a.data)})
-	}
-	progs := []*program.Program{}
-	for _, p := range ps {
-		progs = append(progs, &program.Program{Code: exact(p.Code), Parameter: exact(p.Param)})
-	}
-	tx := functions.CreateTransaction(ctypes.TxVersion09, ctypes.TxType(o.ttype), o.pver, pl, attrs, ins, []*ctypes.Output{}, o.lock, progs)
-	return tx, refs, true
-}
-
-func unsignedOf(tx interfaces.Transaction) []byte {
-	buf := new(bytes.Buffer)
-	func() {
-		defer func() { recover() }()
-		tx.SerializeUnsigned(buf) // checkTransactionSignature ignores the error as well
-	}()
-	return buf.Bytes()
-}
-
-func execTxsig(t []string) string {
-	o := parseTxsig(t)
-	tx, refs, ok := buildTx(o, o.run.Ps)
-	if !ok {
-		return "no-payload"
-	}
-	if !bytes.Equal(unsignedOf(tx), o.run.Data) {
-		return "oracle-mismatch"
-	}
-	// re-check the matrix through the run-op machinery on an empty hash list
-	for k, p := range o.run.Ps {
-		if !bytes.Equal(common.ToCodeHash(p.Code).Bytes(), o.run.CH[k]) {
-			return "oracle-mismatch"
-		}
-	}
-	for id, want := range o.run.VT {
-		f := strings.Fields(id)
-		if verifyCell(hx.UnHex(f[0]), o.run.Data, hx.UnHex(f[1])) != want {
-			return "oracle-mismatch"
-		}
-	}
-	var err error
-	if o.variant == "bc" {
-		err = blockchain.VerifC05CheckTransactionSignature(tx, refs)
-	} else {
-		err = transaction.VerifC05CheckTransactionSignature(tx, refs)
-	}
-	if err != nil && err.Error() == "[BaseTransaction], GetProgramHashes err" {
-		return "err scriptAttr"
-	}
-	return errClass(err)
-}
-
-func txsigLine(o *txOp, ps []progIn) string {
-	tx, _, ok := buildTx(o, nil)
-	if !ok {
-		return ""
-	}
-	data := unsignedOf(tx)
-	var b strings.Builder
-	fmt.Fprintf(&b, "txsig %s %02x %d %d %d", o.variant, o.ttype, o.pver, o.lock, len(o.refs))
-	for _, h := range o.refs {
-		fmt.Fprintf(&b, " %02x %s", h.Pfx, hx.Hex(h.Hash))
-	}
-	fmt.Fprintf(&b, " %d", len(o.attrs))
-	for _, a := range o.attrs {
-		fmt.Fprintf(&b, " %02x %s", a.usage, hx.Hex(a.data))
-	}
-	b.WriteString(runLine(data, nil, ps)[3:])
-	return b.String()
-}
-
 func allTxTypes() []byte {
 	var ts []byte
 	for t := 0; t < 256; t++ {
@@ -687,7 +551,7 @@ func genTxsig(g *hx.Gen, w *world) {
 				}
 				for sc := 0; sc < scen; sc++ {
 					for rep := 0; rep < g.N(1, 4); rep++ {
-						o := &txOp{variant: variant, ttype: tt, pver: byte(pv), lock: uint32(r.Intn(1000))}
+						o := &txOp{Variant: variant, Ttype: tt, Pver: byte(pv), Lock: uint32(r.Intn(1000))}
 						type acct struct {
 							pfx  byte
 							code []byte
@@ -708,12 +572,12 @@ func genTxsig(g *hx.Gen, w *world) {
 						}
 						for _, a := range accts {
 							h := hashFor(a.pfx, a.code)
-							o.refs = append(o.refs, h)
+							o.Refs = append(o.Refs, h)
 							if r.Chance(35) { // the same address referenced by a second input
-								o.refs = append(o.refs, h)
+								o.Refs = append(o.Refs, h)
 							}
 						}
-						o.attrs = append(o.attrs, attrIn{usage: byte(ctypes.Nonce), data: r.Bytes(8)})
+						o.Attrs = append(o.Attrs, attrIn{Usage: byte(ctypes.Nonce), Data: r.Bytes(8)})
 						withScript := sc == 7 || sc == 6
 						var scriptAcct *acct
 						if withScript {
@@ -725,14 +589,14 @@ func genTxsig(g *hx.Gen, w *world) {
 							} else {
 								scriptAcct = &a
 							}
-							o.attrs = append(o.attrs, attrIn{usage: byte(ctypes.Script), data: data})
+							o.Attrs = append(o.Attrs, attrIn{Usage: byte(ctypes.Script), Data: data})
 						}
 						tx, _, _ := buildTx(o, nil)
 						data := unsignedOf(tx)
 						signData := data
 						if sc == 2 { // signatures made over another lock time
 							o2 := *o
-							o2.lock++
+							o2.Lock++
 							tx2, _, _ := buildTx(&o2, nil)
 							signData = unsignedOf(tx2)
 						}
@@ -765,9 +629,9 @@ func genTxsig(g *hx.Gen, w *world) {
 							ps[i], ps[j] = ps[j], ps[i]
 						}
 						// references in random order as well
-						for i := len(o.refs) - 1; i > 0; i-- {
+						for i := len(o.Refs) - 1; i > 0; i-- {
 							j := r.Intn(i + 1)
-							o.refs[i], o.refs[j] = o.refs[j], o.refs[i]
+							o.Refs[i], o.Refs[j] = o.Refs[j], o.Refs[i]
 						}
 						if line := txsigLine(o, ps); line != "" {
 							g.Emit("%s", line)
